@@ -22,7 +22,7 @@ BINARY = {'Add', 'Sub', 'MatMul', 'Tensordot', 'Concatenate', 'Residual'}
 def runs(tier):
     q = tier == 'quick'
     base = dict(MaxD=3, MaxDB=2, DimsR={2}, DimsC={1, 2}, RanksS={1, 2}, Seeds={1}, MaxDepth=2, EmitAll=False,
-                Vias={'matmul'}, QL=2, OWs={False, True}, Lean=True)
+                Vias={'matmul'}, QL=2, OWs={False, True}, Lean=True, IslLevel=0)
     real = {('real', 'real')}
     both = {('real', 'real'), ('complex', 'complex')}
     out = []
